@@ -473,6 +473,7 @@ fn eval(s: &Spec, occs: &[Occ]) -> Result<V, String> {
                     Some(_) => Ok(V::field(i.id, V::Unit)),
                     None => Err(format!("item {} is required", i.id)),
                 },
+                Leaf::Any { .. } => Err("`any` is not modelled".into()),
                 Leaf::Arg { ty, .. } | Leaf::Pos { ty, .. } => match one(occs)? {
                     Some(Occ::Value(b)) => ty
                         .convert(&b)
